@@ -43,8 +43,21 @@ class Ctx:
             self.disagreements.append({"suite": suite, "input": inp, "impl": impl, "model": model, "note": note})
 
     def violation(self, what, inp, site=""):
-        if len(self.violations) < 50:
-            self.violations.append({"what": what, "input": inp, "site": site})
+        # manifestations of a listed finding must not crowd out a different violation: at most 3 are kept per finding,
+        # 50 of the others
+        v = {"what": what, "input": inp, "site": site}
+        if not hasattr(self, "_known"):
+            self._known = common.load_known()
+            self._known_kept = {}
+            self._new_kept = 0
+        f = matches_known(self.pid, v, self._known)
+        if f:
+            self._known_kept[f["id"]] = self._known_kept.get(f["id"], 0) + 1
+            if self._known_kept[f["id"]] <= 3:
+                self.violations.append(v)
+        elif self._new_kept < 50:
+            self._new_kept += 1
+            self.violations.append(v)
 
 
 def matches_known(pid, v, known):
@@ -134,7 +147,8 @@ def run_property(pid, mod, tier, replay):
                         fc(ctx, f["minimal_input"])
             mod.run(ctx)
         # ------------------------------------------------------------ failing-input search
-        if (ctx.disagreements or ctx.broken_obligations) and not ctx.violations:
+        _kn = load_known()
+        if (ctx.disagreements or ctx.broken_obligations) and not [v for v in ctx.violations if not matches_known(pid, v, _kn)]:
             search = getattr(mod, "search", None)
             if search:
                 try:
